@@ -346,6 +346,11 @@ def c04_jobs(tier):
     jobs.append(des("core-p2-long-steps", "notif", b, dl, procs=2, prios="0,0", budget=3, tscale="0.1", t0="-0.15",
                     ops="hold0,hold1,hold3,hold5,hold7,tadd3,tadd5u,yield,resume0,int0,waitp1,exit,evsched3,waite0",
                     script0="hold3,hold1", script1="hold5,hold1"))
+    # the awaited process ends and is started again by a third in the same instant, before the waiter's own timer fires:
+    # whether a wake-up is still pending is not told by the awaited process's state
+    jobs.append(des("awaited-restarted-same-instant-p3", "notif", b, dl, procs=3, prios="0,1,2", budget=4,
+                    ops="hold0,hold1,hold2,tadd1,tadd1u,tadd2,waitp1,start1,int0,return,exit",
+                    script0="tadd1,waitp1,hold1,hold2", script1="hold1,return", script2="waitp1,start1,hold1"))
     if tier != "quick":
         jobs.append(des("core-p3", "notif", 3, dl, procs=3, prios="0,0,1", budget=3,
                         ops=C04_OPS + ",waitp2,int2,stop2,resume2", script0="hold1,hold1", script1="hold2,hold1",
@@ -797,6 +802,13 @@ def c14_jobs(tier):
         des("priorityqueue", "history", b, dl, procs=3, prios="0,1,1", budget=4, pq=2,
             ops="recon,recoff,pqput0,pqput1,pqget,pqcancel,hold0,hold1,tadd1,int0,int1,stop0,exit",
             script0="recon,pqput0,pqput1,pqcancel", script1="hold1,pqget,hold1,recoff", script2="hold1,pqget"),
+        # recording stopped a second time, later, by somebody who does not know it is off already (state changes in between)
+        des("buffer-stopped-twice", "history", b, dl, procs=3, prios="0,1,1", budget=4, buf=3,
+            ops="recon,recoff,restop,bput1,bput2,bget1,bget2,hold0,hold1,int0,exit",
+            script0="recon,bput2,recoff,hold2", script1="hold1,bget2,hold1,restop", script2="hold1,bget1"),
+        des("all-stopped-twice", "history", 2, dl, procs=3, prios="0,1,1", budget=4, res=1, pool=3, oq=2, pq=2,
+            ops="recon,recoff,restop,racq0,rrel0,pacq2,prel2,oqput0,oqget,pqput1,pqget,hold0,hold1,exit",
+            script0="recon,racq0,pacq2,oqput0,pqput1,recoff,hold2", script1="hold1,oqget,pqget,restop", script2="hold2,restop"),
         # time stamps and durations that are not exact in binary, recording switched on before and after zero
         des("pool-fractional-clock", "history", b, dl, procs=3, prios="0,1,2", budget=4, pool=3, tscale="0.1", t0="-0.15",
             ops="recon,recoff,pacq1,pacq2,ppre2,prel1,prel2,hold0,hold1,hold2,int0,exit",
@@ -931,6 +943,8 @@ def c10_jobs(tier):
                  script2="tadd1,bget2,hold1", fptrap=1), crash_is_violation=True),
         ramp("evwait"), ramp("procwait"), ramp("guardq"), ramp("holders"), ramp("timers", 600), ramp("oqueue", 600),
         ramp("observers", 600), ramp("closing"), ramp("restart"), ramp("manywaiters", 900),
+        # a steady population of 2-12 pending events over 3000 executions, every pending handle queried and touched each time
+        ramp("evchurn"),
         dict(ramp("closing"), name="ramp-closing-fptrap", opts=dict(mode="closing", fptrap=1)),
         # data arrays on both sides of their growth point (1023-2049 samples), copied onto targets with an earlier life
         dict(name="data-arrays", harness="c18_data", opts=dict(mode="big"), bound_min=0, bound_max=0, deadline=600,
@@ -976,11 +990,14 @@ def c17_jobs(tier):
         return [j("plain-len5", mode="plain", maxlen=5), j("offset-len5", mode="offset", maxlen=5),
                 j("offset12-len5", mode="offset12", maxlen=5),
                 j("weighted-len3", mode="weighted", maxlen=3),
+                # weight ratios beyond 2^53: count, extremes and mean only
+                j("weighted-tiny-weights-len3", mode="weighted", maxlen=3, wset="tiny"),
                 dict(j("plain-len4-fptrap", mode="plain", maxlen=4, fptrap=1), cfg="rel"),
                 dict(j("weighted-len3-fptrap", mode="weighted", maxlen=3, fptrap=1), cfg="rel")]
     return [j("plain-len7", mode="plain", maxlen=7), j("offset-len7", mode="offset", maxlen=7),
             j("offset12-len6", mode="offset12", maxlen=6),
             j("weighted-len4", mode="weighted", maxlen=4),
+            j("weighted-tiny-weights-len4", mode="weighted", maxlen=4, wset="tiny"),
             dict(j("plain-len6-fptrap", mode="plain", maxlen=6, fptrap=1), cfg="rel"),
             dict(j("offset-len5-fptrap", mode="offset", maxlen=5, fptrap=1), cfg="rel"),
             dict(j("weighted-len4-fptrap", mode="weighted", maxlen=4, fptrap=1), cfg="rel")]
